@@ -183,6 +183,22 @@ def check_property_file(relpath):
     return res
 
 
+def coqchk(relpath, timeout=1500):
+    """Re-check the compiled property file and everything it depends on with
+    Coq's independent checker; returns (ok, axioms text, seconds)."""
+    mod = 'QV.' + relpath[:-2].replace('/', '.')
+    t0 = time.time()
+    p = subprocess.run(['timeout', str(timeout), 'coqchk', '-silent', '-o', '-Q', '.', 'QV', mod],
+                       cwd=COQ, stdout=subprocess.PIPE, stderr=subprocess.STDOUT, text=True)
+    out = p.stdout
+    m = re.search(r'\* Axioms:(.*?)\n\s*\n\* Constants', out, re.S)
+    axioms = m.group(1).strip() if m else '(no summary)'
+    clean = all(f"{k}: <none>" in out for k in
+                ('Axioms', 'relying on type-in-type', 'relying on unsafe (co)fixpoints',
+                 'positivity is assumed'))
+    return p.returncode == 0 and clean, axioms, time.time() - t0
+
+
 FORBIDDEN = re.compile(
     r'\b(Admitted|admit|Axiom|Axioms|Parameter|Parameters|Conjecture|'
     r'Hypothesis|Variable|Admit Obligations|bypass_check|Unset Guard|'
